@@ -166,6 +166,15 @@ def cases(shard, nshards, seed, tier):
         for pairs in gen2d.matchings(n):
             if mine():
                 yield {"family": "exhaustive", "n": n, "pairs": pairs}
+    # five to seven mutually crossing stems of three or four pairs each: letter brackets (level 4 and up) on real stems
+    for kk in (5, 6, 7):
+        for L in (3, 4):
+            pairs = []
+            for s_ in range(kk):
+                for q in range(L):
+                    pairs.append((s_ * (L + 1) + q + 1, kk * (L + 1) + s_ * (L + 1) + (L - q)))
+            if mine():
+                yield {"family": "hostile", "name": f"{kk}-crossing-stems-of-{L}", "n": 2 * kk * (L + 1), "pairs": sorted(pairs)}
     for name, n, pairs in gen2d.hostile():
         if name in ("ladder30",):
             continue
@@ -390,6 +399,11 @@ def run_case(case, rec):
                 getattr(b, op)().elements
             except Exception:
                 pass
+        # ... and the explicit entry point is used with no back-end (first-come-first-served answer) in between
+        try:
+            b.convert_to_dot_bracket(None)
+        except Exception:
+            pass
         try:
             again = b.elements
         except Exception:
